@@ -7,7 +7,7 @@ pkg/transports/connecting/dtls/client.go) holds two parameter sets: the *configu
 (`Parameters` / `parameters`: what `SetParams` writes, used for future sessions) and the *session
 parameters* (`sessionParams`: what `Prepare` copies from the configuration, what `GetParams` puts into
 the registration and what `SetSessionParams` replaces when a registrar overrides them).  The prefix
-transport holds a prefix object next to each of them (`configured`, `Prefix`).  `step` mirrors the
+transport holds a prefix object next to each of them (`configured` + `configuredSet`, `Prefix`).  `step` mirrors the
 methods branch by branch; a Go panic is the answer `panic`.
 
 `unpack` is the client's treatment of the transport parameters of a `RegistrationResponse`
@@ -54,6 +54,7 @@ structure St where
   sess : Option Wire := none    -- `sessionParams`
   pfx : Option PObj := none     -- prefix: `Prefix`
   cfgPfx : Option PObj := none  -- prefix: `configured`
+  cfgSet : Bool := false        -- prefix: `configuredSet`
 deriving DecidableEq, Repr
 
 inductive Op
@@ -96,7 +97,11 @@ def tableObj (c : Consts) (id : Int) : Option PObj := if known c id then some (.
 
 /-- prefix: `(*ClientTransport).configure` -/
 def configure (p : PObj) (st : St) : St :=
-  { st with cfgPfx := some p, pfx := if st.sess.isNone then some p else st.pfx }
+  { st with cfgPfx := some p, cfgSet := true, pfx := if st.sess.isNone then some p else st.pfx }
+
+/-- prefix: `(*ClientTransport).keepConfigured` -/
+def keepConfigured (st : St) : St :=
+  if st.cfgSet then st else { st with cfgPfx := st.pfx, cfgSet := true }
 
 /-! ### min and obfs4 (identical client code) -/
 
@@ -179,10 +184,7 @@ def prefixPrepare (c : Consts) (st : St) : St :=
       match st.pfx with
       | some o => { st with par := some (.prefix o.id false) }
       | none => { st with par := some prefixDefault, pfx := tableObj c 0 }
-  let st2 : St :=
-    match st1.cfgPfx with
-    | none => { st1 with cfgPfx := st1.pfx }
-    | some p => { st1 with pfx := some p }
+  let st2 : St := if st1.cfgSet then { st1 with pfx := st1.cfgPfx } else keepConfigured st1
   { st2 with sess := st2.par }
 
 def prefixSetSession (c : Consts) (st : St) (w : Option Wire) (unchecked : Bool) : St × Res :=
@@ -190,8 +192,8 @@ def prefixSetSession (c : Consts) (st : St) (w : Option Wire) (unchecked : Bool)
   | none => (st, .ok)
   | some (.prefix id r) =>
     if st.par.isNone then (st, .panic)               -- `t.parameters.CustomFlushPolicy` on a nil pointer
-    else if unchecked then ({ st with sess := some (.prefix id r), pfx := some (.resp id) }, .ok)
-    else if known c id then ({ st with sess := some (.prefix id r), pfx := some (.table id) }, .ok)
+    else if unchecked then ({ keepConfigured st with sess := some (.prefix id r), pfx := some (.resp id) }, .ok)
+    else if known c id then ({ keepConfigured st with sess := some (.prefix id r), pfx := some (.table id) }, .ok)
     else (st, .err)
   | some _ => (st, .err)
 
